@@ -420,10 +420,11 @@ end
 The model's cache holds `AugGlue.ParsedFile`s whose `parsed` is the oracle `Parsed.funcAt`
 (getFuncAST after its line check composed with extractArgumentsType).  A Go `parsedFile` is
 abstracted to it by `FA.toParsed` with `types k` = `extractArgumentsType` of the declaration of
-identity `k`; the parse oracle of the model is the one of the environment composed with it (the
+identity `k` (`none` when its receiver list is present and not of length one: `augmentCall`
+returns at once there, the guard of fix F10); the parse oracle of the model is the one of the environment composed with it (the
 tree does not depend on the file name: `pf _ src = pf' src`), `lineToByteOffsets` is the model's. -/
 section refine
-variable (rf : Bytes → Option Bytes) (pf' : Bytes → Option FA.Node) (types : Nat → List Bytes × Bool)
+variable (rf : Bytes → Option Bytes) (pf' : Bytes → Option FA.Node) (types : Nat → Option (List Bytes × Bool))
 
 def absPF (p : GParsedFile) : AugGlue.ParsedFile :=
   ⟨p.lineToByteOffset, FA.toParsed p.lineToByteOffset p.parsed types⟩
@@ -518,9 +519,15 @@ theorem getFuncAST_cases (offsets : List Nat) (root : FA.Node) (l : Nat) :
 variable (ff : Aug.FloatFmt) (ac : Call → Nat → Option Call)
 
 /-- what `ac` (group Aug's augmentCall, given the declaration's identity) must be for the model
-to apply: the model's `applyAugment` on the type names of the declaration, a panic being `none` -/
+to apply: the call as it is for a declaration with a malformed receiver list (`types k = none`),
+otherwise the model's `applyAugment` on the type names of the declaration, a panic being `none`.
+This is the shape `TrAu.tie_augmentCall_enough` proves of the translated `augmentCall`
+(`if recvBad f then some c else applyModel ff c (eat f).1 (eat f).2`). -/
 def AcIsModel : Prop :=
-  ∀ call k, ac call k = (AugGlue.applyAugment ff call (types k).1 (types k).2).toOption
+  ∀ call k, ac call k =
+    match types k with
+    | none => some call
+    | some te => (AugGlue.applyAugment ff call te.1 te.2).toOption
 
 def absR {α : Type} (r : GCache × α) : AugGlue.Cache × α := (absCache types r.1, r.2)
 
@@ -547,8 +554,11 @@ theorem step_refines (hac : AcIsModel types ff ac) (c : GCache) (call : Call) :
         | none => simp [absR, absCache, Except.toOption]
         | some k =>
           simp only [hac call k]
-          cases AugGlue.applyAugment ff call (types k).1 (types k).2 <;>
-            simp [absR, absCache, Except.toOption]
+          cases types k with
+          | none => simp [absR, absCache, Except.toOption]
+          | some te =>
+            cases ha : AugGlue.applyAugment ff call te.1 te.2 <;>
+              simp [ha, absR, absCache, Except.toOption]
 
 theorem calls_refines (hac : AcIsModel types ff ac) (calls : List Call) :
     ∀ (c : GCache) (err : Option AugGlue.ErrKind),
@@ -691,15 +701,17 @@ example : obs (loadFile exEnv ⟨[], []⟩ b!"a.s") = some ([(b!"a.s", true)], s
 example : obs (loadFile exEnv ⟨[], []⟩ b!"a.go") = some ([(b!"a.go", true)], some .read) := by decide
 example : obs (loadFile exEnv ⟨[], [(b!"a.go", none)]⟩ b!"a.go") = some ([(b!"a.go", true)], none) := by decide
 
-/-! ### Finding (fix F10): the glue model applies augmentCall where the code does not
+/-! ### Declarations with a malformed receiver list (fix F10)
 
 The source `func () f(x int) { panic(x) }` (an empty receiver list; go/parser accepts it without
 error) — the tree below is what `ast.Inspect` reports on go/parser's tree of it.  The Go code
 (`augmentCall`: `if f.Recv != nil && len(f.Recv.List) != 1 { return }`, tied in group Aug as
-`recvBad`) leaves the call as it is: `Processed = []` (checked on the real code).  The glue model
-has no such case: `Parsed.funcAt`/`FA.toParsed` give the type names of every declaration found
-(`extractArgumentsType` of this one is `["int"]`) and `AugGlue.lookupAndAugment` always applies
-them: `Processed = ["1"]`. -/
+`recvBad`) leaves the call as it is: `Processed = []` (checked on the real code).  An earlier
+version of the glue model had no such case (`FA.toParsed` gave the type names of every
+declaration found, so the model rendered `Processed = ["1"]`): the disagreement was found by
+writing this refinement.  The model was repaired: `types k = none` for such a declaration
+(`GlueAug.typesOf`), `Parsed.funcAt` then answers "no function" and the call is left alone, as
+in the code; `GlueAug.tie_acOf_isModel` proves `AcIsModel` of the translated `augmentCall`. -/
 
 def f10Src : Bytes := b!"package p\n\nfunc () f(x int) {\n\tpanic(x)\n}\n"
 
@@ -724,9 +736,17 @@ example : (augment (modelEnv (fun _ => some f10Src) (fun _ _ => some f10Tree)
       (fun s => some (AugGlue.lineToByteOffsets s)) (fun c _ => some c)) f10Snapshot).map
     (fun r => (processedOf r.1.goroutines, r.2)) = some ([[[]]], none) := by decide
 
-/-- the glue model on the same input -/
+/-- the glue model on the same input: the declaration's receiver list is malformed, `types` is
+`none` for it, and the call is left as it is — as in the code -/
 example : (AugGlue.augment ⟨fun _ => [], fun _ => []⟩
-      (oracleOf (fun _ => some f10Src) (fun _ => some f10Tree) (fun _ => ([b!"int"], false)))
+      (oracleOf (fun _ => some f10Src) (fun _ => some f10Tree) (fun _ => none))
+      f10Snapshot.goroutines).toOption.map (fun r => (processedOf r.1, r.2)) =
+    some ([[[]]], none) := by decide
+
+/-- and with a well-formed declaration of one `int` parameter at the same place the value is
+rendered (the refinement is not about an oracle that always answers `none`) -/
+example : (AugGlue.augment ⟨fun _ => [], fun _ => []⟩
+      (oracleOf (fun _ => some f10Src) (fun _ => some f10Tree) (fun _ => some ([b!"int"], false)))
       f10Snapshot.goroutines).toOption.map (fun r => (processedOf r.1, r.2)) =
     some ([[[b!"1"]]], none) := by decide
 
